@@ -131,6 +131,11 @@ const EXTERN_PREFIXES: &[&str] = &[
     "core::slice::<impl [T]>::split_first",
     "core::slice::<impl [T]>::split_last",
     "core::convert::identity",
+    "core::iter::range::",
+    "<core::ops::range::Range<",
+    "<usize as core::iter::range::Step>::",
+    "core::iter::traits::iterator::Iterator::for_each",
+    "<I as core::iter::traits::collect::IntoIterator>::into_iter",
     "core::ops::function::impls::",
 ];
 
